@@ -84,7 +84,7 @@ func TestC13(t *testing.T) {
 		plans := make([][]c13Op, callers)
 		for ci := range plans {
 			for s := 0; s < nops; s++ {
-				op := c13Op{Kind: rapid.SampledFrom([]string{"get", "get", "get", "set", "append", "gat", "gete", "delete-missing", "add-existing"}).Draw(t, "op")}
+				op := c13Op{Kind: rapid.SampledFrom([]string{"get", "get", "get", "set", "set-big", "append", "gat", "gete", "delete-missing", "add-existing"}).Draw(t, "op")}
 				if op.Kind == "gat" || op.Kind == "gete" {
 					op.Keys = []string{fmt.Sprintf("c%d-r%d", ci, rapid.SampledFrom([]int{1, 3, 3}).Draw(t, "rk1"))}
 				}
@@ -238,6 +238,12 @@ func TestC13(t *testing.T) {
 							} else if len(res.Exps) != 1 || res.Exps[0] < 90000 || res.Exps[0] > 100001 {
 								problems[ci] = fmt.Sprintf("caller %d op %d gete %s: no error but remaining lifetime %v, the stored item has about 100000 s", ci, s, op.Keys[0], res.Exps)
 							}
+						}
+					case "set-big":
+						// a request larger than the pooled connection's write buffer (64 KiB)
+						k, v := fmt.Sprintf("c%d-w%d", ci, s), []byte(fmt.Sprintf("<big set by caller %d op %d %s>", ci, s, strings.Repeat("z", 70000)))
+						if res, _ := execHandler(h, wire.Cmd{Kind: wire.Set, Key: k, Value: v, Flags: 3}, 0); res.Err == nil {
+							ackedSets[ci][k] = v
 						}
 					case "set":
 						k, v := fmt.Sprintf("c%d-w%d", ci, s), []byte(fmt.Sprintf("<set by caller %d op %d>", ci, s))
